@@ -121,6 +121,9 @@ impl<T> OsSender<T> {
 // thiserror-generated conversion used by `ActorError::Timeout.into()`
 pub enum ActorError { Timeout, Other }
 impl From<ActorError> for DynErr { #[verifier::external_body] fn from(e: ActorError) -> (r: DynErr) { unimplemented!() } }
+// `Box<dyn Error + Send + Sync>: From<String>` / `From<&str>` (an error made from a message)
+impl From<String> for DynErr { #[verifier::external_body] fn from(e: String) -> (r: DynErr) { unimplemented!() } }
+impl<'a> From<&'a str> for DynErr { #[verifier::external_body] fn from(e: &'a str) -> (r: DynErr) { unimplemented!() } }
 
 // restart_strategy.rs: the trait every strategy is proved against (C07). `kind()` is the specification-side name of
 // what the statement promises for that strategy; the implementations' bodies are extracted from /repo.
